@@ -48,7 +48,7 @@ let sem_tptp (e : Sexp.t) : Sexp.t =
               let fi = Semlib.random_ffint st w fcs in
               incr count;
               let lhs = ceval w fi i env f in
-              let rhs = M.TffEval.tff_eval w fi i env g in
+              let rhs = M.TffEval.tff_eval [] w fi i env g in
               if lhs <> rhs then
                 result := Some (L [ A "cex"; L [ A "I"; Semlib.of_fpint i ]; L [ A "env"; Semlib.of_fenv env ];
                                     L [ A "placeholders"; Semlib.of_ffint fi ]; L [ A "window"; Semlib.of_window w ];
@@ -61,6 +61,24 @@ let sem_tptp (e : Sexp.t) : Sexp.t =
   | _ -> bad "sem_tptp: %s" (to_string e)
 
 (* ---------- C09 / C12: the IMPLEMENTATION's .p text ---------- *)
+(* The text is read by the EXTRACTED specification reader M.TffText.read_problem (the reader of
+   C09_display_reads_as_emit / C09_text / C06_text).  The hand-written OCaml reader
+   (tff_problem_read.ml) is run as well: it supplies the error message, and whenever both readers
+   accept, their results must be equal (an independent implementation validating the
+   specification reader on every case). *)
+exception Readers_disagree of string
+let read_text (text : string) : (M.Tff.tff_problem, string) result =
+  let spec = M.TffText.read_problem (cl_of_string text) in
+  let hand = try Ok (Tff_problem_read.read text) with Tff_problem_read.Read_error msg -> Error msg in
+  match spec, hand with
+  | Some a, Ok b -> if a = b then Ok a else raise (Readers_disagree "both readers accept the text but read different problems")
+  | Some _, Error m -> raise (Readers_disagree ("the specification reader accepts a text the OCaml reader rejects: " ^ m))
+  | None, Ok _ ->
+    (* the specification reader is stricter (no comments, operators separated from `!`): not an
+       error of the implementation unless the text is anthem's *)
+    Error "rejected by the specification reader M.TffText.read_problem (accepted by the OCaml reader)"
+  | None, Error m -> Error m
+
 let model_pipeline raw d =
   let open M.Problem in
   decompose (create_unique_formula_names (rename_conflicting_symbols (add_annotated_formulas (with_name raw.pb_name) raw.pb_formulas))) d
@@ -115,7 +133,10 @@ let sem_problem_wt ~(strict : bool) (e : Sexp.t) : Sexp.t =
             let text = match t with S x -> x | _ -> bad "sem_problem_wt: string expected" in
             let in_class = not (M.ProblemPrint.ident_ok m) in
             let excuse excusable = (not strict) && excusable && in_class in
-            match (try Ok (Tff_problem_read.read text) with Tff_problem_read.Read_error msg -> Error msg) with
+            match (try read_text text with Readers_disagree msg ->
+                     result := Some (L [ A "cex"; L [ A "problem"; A (string_of_int i) ]; L [ A "readers-disagree"; S msg ] ]);
+                     Error msg) with
+            | Error _ when !result <> None -> ()
             | Error msg ->
               (* an input formula with free variables is outside the property's premise *)
               if not (excuse true) && (strict || closed) then
@@ -132,7 +153,7 @@ let sem_problem_wt ~(strict : bool) (e : Sexp.t) : Sexp.t =
                  if M.TffWt.wt_problem tp then begin
                    incr checked;
                    (* the text, read back, is the structure the model emits *)
-                   if List.for_all (fun a -> M.TptpPrint.wf_tptp a.M.Problem.pf_formula) m.M.Problem.pb_formulas
+                   if List.for_all (fun a -> M.TptpPrint.wf_lex a.M.Problem.pf_formula) m.M.Problem.pb_formulas
                    && tp <> M.ProblemPrint.emit m then
                      result := Some (L [ A "cex"; L [ A "problem"; A (string_of_int i) ]; L [ A "text-reads-differently-from-model-structure" ] ])
                  end)
@@ -140,6 +161,64 @@ let sem_problem_wt ~(strict : bool) (e : Sexp.t) : Sexp.t =
       match !result with Some r -> r | None -> L [ A "ok"; A (string_of_int !checked) ]
     end
   | _ -> bad "sem_problem_wt: %s" (to_string e)
+
+(* sem_problem_meaning (C06_in_problem / C06_text): input ((raw d) ("text" ..)).  For every emitted
+   problem outside IdentClass whose formulas are lexically in the parser image: the IMPLEMENTATION's
+   text is read by the specification reader; the constant signature is taken from the
+   declarations IN THE TEXT (csig_of_decls: type_symbol_i = symbolic constant,
+   type_function_constant_i = placeholder); every source formula must occur (same name) and its
+   reading, evaluated under that signature (tff_eval), must have the truth value ceval gives the
+   source formula, on sampled finite interpretations.  Symbolic constants that end in _g/_i/_s
+   (renamed p__s included) are covered: they are declared. *)
+let sem_problem_meaning (e : Sexp.t) : Sexp.t =
+  match e with
+  | L [ L [ p; d ]; L texts ] ->
+    let raw = problem p in
+    let models = model_pipeline raw (decomposition d) in
+    if List.length models <> List.length texts then L [ A "ok"; A "0" ] (* reported by sem_problem_wt *)
+    else begin
+      let count = ref 0 in
+      let result = ref None in
+      let fail i what = if !result = None then result := Some (L [ A "cex"; L [ A "problem"; A (string_of_int i) ]; what ]) in
+      List.iteri (fun i (m, t) ->
+          let text = match t with S x -> x | _ -> bad "sem_problem_meaning: string expected" in
+          if !result = None && M.ProblemPrint.ident_ok m
+             && List.for_all (fun a -> M.TptpPrint.wf_lex a.M.Problem.pf_formula) m.M.Problem.pb_formulas then
+            match M.TffText.read_problem (cl_of_string text) with
+            | None -> fail i (L [ A "unreadable-by-the-specification-reader" ])
+            | Some tp ->
+              let k = M.TffSem.csig_of_decls tp.M.Tff.tp_decls in
+              if k <> M.ProblemPrint.problem_csig m then fail i (L [ A "declared-constant-signature-differs-from-the-model" ]);
+              let st = Semlib.rng_of (Semlib.hash_sexp (L [ e; A (string_of_int i) ])) in
+              let fs = List.map (fun a -> a.M.Problem.pf_formula) m.M.Problem.pb_formulas in
+              let w = Semlib.window_of ~max_ints:3 ~max_syms:3 fs in
+              let vals = Semlib.take 3 (Semlib.shuffle st (Semlib.general_values w)) in
+              let preds = List.fold_left (fun acc f -> M.ISet.iset_extend pred_dec_ acc (predicates f)) [] fs in
+              let atoms = Semlib.ground_atoms st preds vals 6 in
+              List.iter (fun a ->
+                  let f = a.M.Problem.pf_formula in
+                  match List.find_opt (fun nf -> nf.M.Tff.n_name = a.M.Problem.pf_name) tp.M.Tff.tp_formulas with
+                  | None -> fail i (L [ A "formula-missing-from-the-text"; S (str_of a.M.Problem.pf_name) ])
+                  | Some nf ->
+                    for _ = 1 to 4 do
+                      if !result = None then begin
+                        let it = Semlib.random_subset st atoms in
+                        let env = Semlib.random_env st w (free_variables f) in
+                        let fi = Semlib.random_ffint st w (function_constants f) in
+                        incr count;
+                        let lhs = ceval w fi it env f in
+                        let rhs = M.TffEval.tff_eval k w fi it env nf.M.Tff.n_formula in
+                        if lhs <> rhs then
+                          fail i (L [ A "different-truth-value"; S (str_of a.M.Problem.pf_name);
+                                      L [ A "I"; Semlib.of_fpint it ]; L [ A "env"; Semlib.of_fenv env ];
+                                      L [ A "placeholders"; Semlib.of_ffint fi ]; L [ A "window"; Semlib.of_window w ];
+                                      L [ A "formula-true"; of_boolv lhs ]; L [ A "text-true"; of_boolv rhs ] ])
+                      end
+                    done) m.M.Problem.pb_formulas
+          ) (List.combine models texts);
+      match !result with Some r -> r | None -> L [ A "ok"; A (string_of_int !count) ]
+    end
+  | _ -> bad "sem_problem_meaning: %s" (to_string e)
 
 (* sem_chain (C12): input ((raw d) ("text" ..)).  In each implementation text: every
    symbol_order_i axiom must be TRUE in the standard structure for the printed names (symbolic
@@ -169,7 +248,7 @@ let sem_chain_gen ~(all : bool) (e : Sexp.t) : Sexp.t =
     List.iteri (fun i t ->
         let text = match t with S x -> x | _ -> bad "sem_chain: string expected" in
         let in_class = match List.nth_opt models i with Some m -> not (M.ProblemPrint.ident_ok m) | None -> false in
-        match (try Ok (Tff_problem_read.read text) with Tff_problem_read.Read_error msg -> Error msg) with
+        match (try read_text text with Readers_disagree msg -> Error msg) with
         | Error _ -> ()              (* an unreadable text is C09's business (sem_problem_wt) *)
         | Ok _ when in_class -> ()   (* identifier clashes (C09 IdentClass): constants do not denote themselves *)
         | Ok tp ->
@@ -311,6 +390,7 @@ let () =
   Ops.register "same_reading" same_reading;
   Ops.register "sem_problem_wt" (sem_problem_wt ~strict:false);
   Ops.register "sem_problem_wt_strict" (sem_problem_wt ~strict:true);
+  Ops.register "sem_problem_meaning" sem_problem_meaning;
   Ops.register "sem_chain" sem_chain;
   Ops.register "sem_chain_all" sem_chain_all;
   Ops.register "sem_transition" sem_transition;
